@@ -157,7 +157,7 @@ def run(ctx):
                 "freed nick, WHOWAS and NAMES from a survivor; distinct = (ending, #channels, user modes, invitations?, ranked?, "
                 "last member?). (exploration) the same endings mixed into random E1 histories")
     res.floor("injections_done", done, 150)
-    res.floor("ending_kinds", len(per_ending), 10)
+    res.floor("ending_kinds", len(per_ending), 8)
     res.assumptions = ["pong-timeout endings are exercised by C17 (needs clients that answer server PINGs)",
                        "a mid-line close may or may not execute the unterminated line; it is chosen to be harmless"]
     return res
